@@ -34,7 +34,8 @@ type C19Plan struct {
 	Type     string    `json:"type"`  // "ed" | "rsa"
 	Holds    string    `json:"holds"` // "A" (matched) | "B" (PEM holds another key of the same type) | "X" (PEM holds a key of the OTHER type)
 	Rounds16 bool      `json:"rounds16,omitempty"`
-	Twin     bool      `json:"twin,omitempty"` // before the history, ANOTHER identity value built from the same key file bytes (declaring the key the file really holds) unlocks and validates its key once
+	Collide  bool      `json:"collide,omitempty"` // ed only: A and B are two different keys whose 4-byte stanza tags are equal (found by a birthday search, committed as fixtures): what tells them apart is the public key, never the tag
+	Twin     bool      `json:"twin,omitempty"`    // before the history, ANOTHER identity value built from the same key file bytes (declaring the key the file really holds) unlocks and validates its key once
 	Calls    []C19Call `json:"calls"`
 }
 
@@ -56,11 +57,11 @@ func (C19) Meta() core.Meta {
 	return core.Meta{
 		Level:       "exploration",
 		Rule:        "a case = history of 2..6 Decrypt calls on ONE agessh.EncryptedSSHIdentity value (in a quarter of the cases after ANOTHER identity value over the same key file bytes has unlocked and validated its key: nothing of that may carry over) (ed25519 in OpenSSH format or RSA in legacy PEM; PEM holding the declared key A, another key B of the same type, or a key of the other type) over reference-written files whose stanza lists address A, B and unrelated keys of the same and of other types in any order, optionally with one crafted stanza (other SSH type carrying A's tag, A's type and tag with a body that does not open, stanzas without arguments); the passphrase callback answers right/wrong/error per plan and counts invocations. Every call's result class (plaintext / no-match / fatal error), plaintext and prompt count must equal the model {validated: bool}. Non-trivial = history contains a prompt; distinct = distinct (type, holds, history skeleton).",
-		Assumptions: []string{"fixture keys generated once with ssh-keygen -a 1 (cheap KDF) and committed; stanzas of the identity's type always carry a tag argument"},
+		Assumptions: []string{"fixture keys generated once with ssh-keygen -a 1 (cheap KDF) and committed (the pair with equal tags by a birthday search over about 57 000 derived ed25519 keys); stanzas of the identity's type always carry a tag argument"},
 		Real:        []string{"agessh.EncryptedSSHIdentity", "agessh Ed25519/RSA identities", "x/crypto/ssh key parsing", "filippo.io/age Decrypt"},
 		Stub:        []string{"passphrase callback", "files (reference writer)", "source"},
 		FaultKinds:  []string{"fault.passphrase_wrong", "fault.passphrase_error", "fault.mismatched_private_key"},
-		Probes:      []string{"probe.prompted", "probe.no_prompt_no_match", "probe.validated_then_reused", "probe.after_mismatch_file_to_B", "probe.after_mismatch_same_file", "probe.after_wrong_then_right", "probe.match_not_first_stanza", "probe.same_type_other_tag", "probe.crafted_other_type_same_tag", "probe.crafted_same_tag_bad_body", "probe.crafted_other_tag_bad_args", "probe.key_file_of_other_type", "probe.twin_identity_validated_first"},
+		Probes:      []string{"probe.prompted", "probe.no_prompt_no_match", "probe.validated_then_reused", "probe.after_mismatch_file_to_B", "probe.after_mismatch_same_file", "probe.after_wrong_then_right", "probe.match_not_first_stanza", "probe.same_type_other_tag", "probe.crafted_other_type_same_tag", "probe.crafted_same_tag_bad_body", "probe.crafted_other_tag_bad_args", "probe.key_file_of_other_type", "probe.twin_identity_validated_first", "probe.colliding_tags"},
 	}
 }
 
@@ -76,6 +77,10 @@ func (C19) Generate(r *core.RNG, tier string, idx uint64) interface{} {
 		p.Rounds16 = true
 	}
 	p.Twin = r.Chance(1, 4)
+	if p.Type == "ed" && p.Holds != "X" && !p.Rounds16 && r.Chance(1, 6) {
+		p.Collide = true
+		p.Twin = false
+	}
 	n := r.Range(2, 6)
 	same := "e"
 	if p.Type == "rsa" {
@@ -117,6 +122,9 @@ func (C19) Generate(r *core.RNG, tier string, idx uint64) interface{} {
 		if r.Chance(1, 4) {
 			// a crafted stanza (the header MAC is only checked after an identity produced a file key)
 			crafted := []string{"A~other", "A~other", "A~bad", "my-noargs", "other-noargs", "B~badargs", "B~badargs"}[r.Intn(7)]
+			if p.Collide && crafted == "B~badargs" {
+				crafted = "A~bad" // (B's tag IS A's tag there)
+			}
 			at := r.Intn(len(cl.Stanzas) + 1)
 			cl.Stanzas = append(cl.Stanzas[:at:at], append([]string{crafted}, cl.Stanzas[at:]...)...)
 		}
@@ -161,11 +169,14 @@ type c19Keys struct {
 	passA, passB string
 }
 
-func c19Load(typ string, rounds16 bool) *c19Keys {
+func c19Load(typ string, rounds16 bool, collide ...bool) *c19Keys {
 	k := &c19Keys{}
 	name := "ed"
 	if typ == "rsa" {
 		name = "rsa"
+	}
+	if len(collide) > 0 && collide[0] && typ == "ed" {
+		name = "edc"
 	}
 	pub, _, _, _, err := ssh.ParseAuthorizedKey(world.Fixture("c19_" + name + "A.pub"))
 	if err != nil {
@@ -199,7 +210,10 @@ func c19Load(typ string, rounds16 bool) *c19Keys {
 
 func (e C19) Execute(plan interface{}, c *core.Ctx) *core.Verdict {
 	p := plan.(*C19Plan)
-	ks := c19Load(p.Type, p.Rounds16)
+	ks := c19Load(p.Type, p.Rounds16, p.Collide)
+	if p.Collide {
+		c.Stats.Inc("probe.colliding_tags")
+	}
 	pem, pass := ks.pemA, ks.passA
 	if p.Holds == "B" {
 		pem, pass = ks.pemB, ks.passB
@@ -284,6 +298,9 @@ func (e C19) Execute(plan interface{}, c *core.Ctx) *core.Verdict {
 	sawMismatch, sawWrong := false, false
 	var firstMismatchStanzas string
 	skeleton := p.Type + "/" + p.Holds
+	if p.Collide {
+		skeleton += "/collide"
+	}
 	if p.Twin {
 		skeleton += "/twin"
 	}
@@ -339,6 +356,9 @@ func (e C19) Execute(plan interface{}, c *core.Ctx) *core.Verdict {
 					st, _ = ref.WrapSSHRSA(f.FileKey, bytes.NewReader(rng.Bytes(2048)), &key.PublicKey)
 				}
 				vw.mine = true
+				if who == "B" && len(st.Args) > 0 && st.Args[0] == tagA {
+					vw.tagA = true // a different key with the same tag: looks addressed to A, does not open with A
+				}
 				if who == "A" {
 					vw.tagA, vw.opens = true, true
 					if si > 0 {
